@@ -29,7 +29,13 @@ var initCmd = &cobra.Command{
 		if err != nil {
 			return errors.New("fail to get current path")
 		}
-		goitDir := filepath.Join(curPath, ".goit")
+		// the repository is built in a temporary directory and renamed into place at the end, so that
+		// an interrupted init never leaves a half-made .goit behind
+		finalDir := filepath.Join(curPath, ".goit")
+		goitDir := filepath.Join(curPath, ".goit.tmp")
+		if err := os.RemoveAll(goitDir); err != nil {
+			return fmt.Errorf("%w: %s", ErrIOHandling, goitDir)
+		}
 		if err := os.Mkdir(goitDir, os.ModePerm); err != nil {
 			return fmt.Errorf("%w: %s", ErrIOHandling, goitDir)
 		}
@@ -76,8 +82,12 @@ var initCmd = &cobra.Command{
 			return fmt.Errorf("%w: %s", ErrIOHandling, tagsDir)
 		}
 
+		if err := os.Rename(goitDir, finalDir); err != nil {
+			return fmt.Errorf("%w: %s", ErrIOHandling, finalDir)
+		}
+
 		// print out message for initialization success
-		fmt.Printf("Initialized empty Goit repository in %s\n", goitDir)
+		fmt.Printf("Initialized empty Goit repository in %s\n", finalDir)
 
 		return nil
 	},
